@@ -27,7 +27,7 @@ def main(tier):
     prog = facts.load("dev", None)
     idx = rules.Index(prog)
     global GATES
-    GATES = {rules.free_node_key(prog), "crate::arena::Arena<T>::new_node"}
+    GATES = {rules.free_node_key(prog)} | rules.alloc_gates(prog)      # append_value joins when it allocates through a path of its own (decided by C07's append_alloc table)
     # (a) relocation
     nsites = 0
     for k, cs in idx.calls.items():
